@@ -204,7 +204,10 @@ pub fn check_quant_t<T: QEl>(c: &QCase) -> CheckResult {
         .class_if(used_specs.iter().any(|s| s.is_boundary()), "q:boundary-constructed")
         .class_if(c.shape.len() >= 2, "ndim>=2")
         .class_if(c.pivots.iter().any(|p| p.is_real()), "pivots:real-rng")
-        .class_if(bulk && qs.len() >= 2, "bulk>=2q"))
+        .class_if(bulk && qs.len() >= 2, "bulk>=2q")
+        .class_if(bulk && qs.len() >= 64, "bulk>=64q")
+        .class_if(n > 256, "lane>256")
+        .class_if(n >= 1024, "lane>=1024"))
 }
 
 pub fn check_quant(c: &QCase) -> CheckResult {
@@ -250,6 +253,104 @@ pub fn qcase_strategy(max_lane: usize, with_n32: bool, wide: bool) -> impl Strat
             )
         })
         .prop_map(|((ty, strat, static_dim, shape, axis, layout, api), data, qs, pivots)| QCase { ty, shape, layout, axis, data, qs, strat, api, static_dim, pivots })
+}
+
+/// Long lanes (hundreds to thousands of elements, lengths around powers of two) and long
+/// request lists (up to several hundred quantiles, both extremes, runs of adjacent ranks):
+/// the regimes a thresholded fast path only enters for sizes the short cases never reach.
+pub fn qcase_long_strategy(max_lane: usize, with_n32: bool) -> impl Strategy<Value = QCase> {
+    let special: Vec<usize> = vec![129, 200, 255, 256, 257, 511, 512, 513, 1000, 1023, 1024, 1025, 2000, 2047, 2048, 2049, 4095, 4096, 4097, 5000]
+        .into_iter()
+        .filter(|&n| n <= max_lane)
+        .collect();
+    (ty_strategy(with_n32), strat_strategy(), any::<u8>(), any::<bool>(), prop_oneof![2 => proptest::sample::select(special), 3 => 129usize..=max_lane], 1usize..=3, 0usize..2)
+        .prop_flat_map(move |(ty, strat, api_roll, static_dim, lane, others, axis)| {
+            let one_d = api_roll % 3 == 0;
+            let (shape, axis) = if one_d {
+                (vec![lane], 0)
+            } else if axis == 0 {
+                (vec![lane.min(3000), others], 0)
+            } else {
+                (vec![others, lane.min(3000)], 1)
+            };
+            let nd = shape.len();
+            let total: usize = shape.iter().product();
+            let linear64 = strat == Strat::Linear && matches!(ty, Ty::I64 | Ty::U64 | Ty::Usize);
+            let api = match (nd, api_roll % 4) {
+                (1, 0) => Api::OneDSingle,
+                (1, 1) => Api::OneDBulk,
+                (_, 2) => Api::AxisSingle,
+                _ => Api::AxisBulk,
+            };
+            let bulk = matches!(api, Api::AxisBulk | Api::OneDBulk);
+            let nq = if bulk { 1..400usize } else { 1..2usize };
+            (
+                Just((ty, strat, static_dim, shape, axis, api)),
+                layout_strategy(nd),
+                ord_values(ty, total..total + 1, !linear64),
+                (any::<u8>(), proptest::collection::vec(qspec_strategy(), nq), any::<u16>()),
+                proptest::collection::vec(pivots_strategy(), 1..3),
+                any::<u8>(),
+            )
+        })
+        .prop_map(|((ty, strat, static_dim, shape, axis, api), layout, mut data, (qclass, mut qs, qsel), pivots, arrange)| {
+            let bulk = matches!(api, Api::AxisBulk | Api::OneDBulk);
+            let n = shape[axis];
+            if bulk {
+                let grid = |k: usize| QSpec::Grid { sel: ((((k as u64) << 16) / n as u64 + 1).min(65535)) as u16, nudge: 0 };
+                match qclass % 8 {
+                    // both extremes among a few others
+                    0 => {
+                        qs.truncate(4);
+                        qs.push(QSpec::One);
+                        qs.insert(0, QSpec::Zero);
+                    }
+                    1 => qs = vec![QSpec::One, QSpec::Zero],
+                    // a run of adjacent ranks
+                    2 | 3 => {
+                        let start = (qsel as usize * n) >> 16;
+                        let len = qs.len().min(250);
+                        qs = (start..(start + len).min(n)).map(grid).collect();
+                    }
+                    // the upper / lower tail
+                    4 => {
+                        let len = qs.len().min(200).min(n);
+                        qs = if qsel % 2 == 0 { (n - len..n).map(grid).collect() } else { (0..len).map(grid).collect() };
+                    }
+                    5 => qs.truncate(12),
+                    _ => {}
+                }
+            }
+            // arrange lanes: extremes at the ends, monotone lanes
+            let key = |v: i128| Val::of(ty, v);
+            for lane in lane_indexes(&shape, axis) {
+                if lane.len() < 2 {
+                    continue;
+                }
+                let kmax = *lane.iter().max_by(|&&a, &&b| key(data[a]).cmp(&key(data[b]))).unwrap();
+                let kmin = *lane.iter().min_by(|&&a, &&b| key(data[a]).cmp(&key(data[b]))).unwrap();
+                match arrange % 8 {
+                    0 => data.swap(lane[0], kmax),
+                    1 => data.swap(lane[lane.len() - 1], kmin),
+                    2 => {
+                        let mut vals: Vec<i128> = lane.iter().map(|&i| data[i]).collect();
+                        vals.sort_by(|a, b| key(*b).cmp(&key(*a)));
+                        for (&i, v) in lane.iter().zip(vals) {
+                            data[i] = v;
+                        }
+                    }
+                    3 => {
+                        let mut vals: Vec<i128> = lane.iter().map(|&i| data[i]).collect();
+                        vals.sort_by(|a, b| key(*a).cmp(&key(*b)));
+                        for (&i, v) in lane.iter().zip(vals) {
+                            data[i] = v;
+                        }
+                    }
+                    _ => {}
+                }
+            }
+            QCase { ty, shape, layout, axis, data, qs, strat, api, static_dim, pivots }
+        })
 }
 
 // ---------------------------------------------------------------------------------------
@@ -351,8 +452,9 @@ pub fn run_c01(ctx: &Ctx) {
     let t = ctx.tier();
     enum_quant(ctx, t.pick(5, 6));
     ctx.run_proptest("quant", t.pick(60_000, 2_000_000), qcase_strategy(t.pick(120, 400), t == Tier::Thorough, true), &check_quant);
+    ctx.run_proptest("quant-long", t.pick(800, 30_000), qcase_long_strategy(t.pick(3_000, 5_000), t == Tier::Thorough), &check_quant);
 }
 
 pub fn replayers() -> Vec<(&'static str, ReplayFn)> {
-    vec![("quant", |v| replay_with::<QCase>(v, &check_quant))]
+    vec![("quant", |v| replay_with::<QCase>(v, &check_quant)), ("quant-long", |v| replay_with::<QCase>(v, &check_quant))]
 }
